@@ -237,6 +237,37 @@ Print Assumptions C17_column_ensemble_is_mean_of_members.
 (* non-vacuity: three members with weights 1/2, 1/4, 1/4 voting "b", "a", "b" over the training
    labels ["b";"a";"c";"b"] (strings as code points): classes_ = a, b, c; row = 1/4, 3/4, 0; the
    prediction is "b"; against the truth "b" the score is 1; and the slope of 1,3,5,7 is 2 *)
+(* ... over the user's `estimators` list: the probabilities are the mean over the FITTED members
+   (entries that are not 'drop' and have at least one column; a fitted remainder estimator is one
+   more entry); an entry that is never fitted counts neither as a member nor in the divisor,
+   wherever it stands in the list *)
+Theorem C17_column_ensemble_is_mean_of_fitted_members : forall k spec x,
+  fitted_members spec <> [] ->
+  (forall m, In m (fitted_members spec) -> is_dist k (snd m (select (fst m) x))) ->
+  (is_dist k (colens_spec_proba k spec x) /\
+   forall j, (j < k)%nat ->
+     nth j (colens_spec_proba k spec x) 0 ==
+     qsum (map (fun m => nth j (snd m (select (fst m) x)) 0) (fitted_members spec))
+     / qlen (fitted_members spec)) /\
+  (forall a b cols f,
+     colens_spec_proba k (a ++ EDrop cols :: b) x = colens_spec_proba k (a ++ b) x /\
+     colens_spec_proba k (a ++ EClf [] f :: b) x = colens_spec_proba k (a ++ b) x) /\
+  (length (fitted_members spec) <= length spec)%nat.
+Proof.
+  intros k spec x H1 H2. split; [apply column_ensemble_is_mean_of_fitted_members; assumption|].
+  split; [intros a b cols f; apply unfitted_entries_do_not_count|apply fitted_members_le].
+Qed.
+Print Assumptions C17_column_ensemble_is_mean_of_fitted_members.
+
+(* why the divisor must be the number of FITTED members: with one classifier and one 'drop' entry
+   the mean over the fitted members is the classifier's row, while the sum of the members' rows
+   divided by the number of ENTRIES is [1/2; 0] - not a probability row *)
+Example C17_dividing_by_the_number_of_entries_is_wrong :
+  let spec := [EClf [0%nat] (fun _ => [1; 0]); EDrop [1%nat]] in
+  map Qred (colens_spec_proba 2 spec []) = [1; 0] /\
+  map Qred (map (fun s => s / qlen spec) (vsum 2 (colens_member_outputs (fitted_members spec) []))) = [1 # 2; 0].
+Proof. cbv zeta. split; reflexivity. Qed.
+
 (* the combinators the theorems above are about ARE what the source computes: `gen_*` (C17/Sites.v)
    are regenerated on this run from the predict_proba / predict functions of the classifiers by
    translator/combine_c17.py.  (1) the three forests and the column ensemble average their members'
